@@ -21,7 +21,6 @@ def check(pid, tier):
     run_fn(pid, ev, violations, machinery, "MaskOpsEmit", "MaskOps_Trace", RUNNER, clause_property, "mask-case",
            nontrivial=lambda t: any(t["case"]["mask"]) and not all(t["case"]["mask"]))
     # acceptance table: consumer FLEX / NONE / fixed x producer mask x grid layout
-    tlc.emit("MetaEmit", {})      # theorems of Meta.tla
     masks, grids = ["flex", "nomask", "M", "N", "E", "E0"], ["g", "g2"]
     cases = []
     for pm, cm, pg, cg in itertools.product(masks, masks, grids, grids):
